@@ -110,12 +110,28 @@ def discharge(facts, b, blk, kind, ops, t, prefix):
         if kind == "assert:Overflow(Shl)" or kind == "assert:Overflow(Shr)":
             if vals[-1] is not None and vals[-1] < 64:
                 return "constant shift amount"
+    if kind == "assert:BoundsCheck" and len(t["msg_ops"]) == 2:
+        ln, ix = (fmtfeat.const_eval(expr(b, o)) for o in t["msg_ops"])
+        if ln is not None and ix is not None and ix < ln:
+            return "constant index %d into a fixed array of %d" % (ix, ln)
     if kind in ("call:index", "call:index_mut") and len(t["args"]) == 2:
         base = strip_refs(expr(b, t["args"][0]))
         idx = strip_refs(expr(b, t["args"][1]))
         n = None
         if base[0] == "call" and base[1].endswith("from_elem"):
             n = fmtfeat.const_eval(base[2][1])
+        if n is None:
+            # a fixed-size array (by value or behind references): the length is in the type
+            bl = op_local(b.resolve_copy(t["args"][0]))
+            seen_l = set()
+            while bl is not None and bl not in seen_l:
+                seen_l.add(bl)
+                m_ = re.match(r"^&*(?:mut )?\[u8; (\d+)\]$", b.local_ty(bl).replace("&mut ", "&"))
+                if m_:
+                    n = int(m_.group(1))
+                    break
+                nb = borrowed_local(b, {"k": "copy", "place": {"l": bl, "p": []}})
+                bl = nb if nb != bl else None
         k = fmtfeat.const_eval(idx)
         if n is not None and k is not None and k < n:
             return "constant index %d into a %d-byte buffer" % (k, n)
@@ -187,9 +203,8 @@ def check_panic_freedom(ctx, facts):
     ctx.note("panic sites on the open path: %d, discharged by rule: %d, by table row: %d" % (n, n_auto, n_table))
     # decoder guards (7 sites)
     n_dec = 0
-    for fn in ("block::Block::read", "walrus::Walrus::startup_chore", "batch_read_for_topic"):
-        b = facts.body(fn)
-        for s in fmtfeat.decode_sites(b):
+    for b, s in fmtfeat.all_decode_sites(facts):
+        if True:
             f = fmtfeat.decoder_features(b, s)
             n_dec += 1
             if f and f["len_bounds"]["lower"] == 1 and f["len_bounds"]["upper"] is not None and f["len_bounds"]["upper"] <= prefix - 2:
@@ -197,7 +212,44 @@ def check_panic_freedom(ctx, facts):
             else:
                 ctx.violate("C11.2", common.short_fn(b.name), "decode-without-length-bounds", b.relfile, s.line,
                             "a header is decoded without dominating bounds 1 <= len <= PREFIX_META_SIZE-2 (%s)" % (f["len_bounds"] if f else None))
-    ctx.floor("C11.2", "header decode sites", n_dec, 7)
+    ctx.floor("C11.2", "header decode sites", n_dec, 1)
+    for fn, has in fmtfeat.consumers_reach_decode(facts, ("block::Block::read", "walrus::Walrus::startup_chore", "batch_read_for_topic")).items():
+        if not has:
+            ctx.violate("C11.2", "floor", "no header decode reachable from " + fn, None, None, "%s neither contains nor calls a Metadata header decode: the decoder rules would pass vacuously" % fn)
+
+
+def _from_file(facts, b, operand, depth=0):
+    """Do the bytes behind `operand` come from a file read?  Follows parameters to the callers'
+    arguments (two levels), so that a shared decode helper is judged by what it is given."""
+    src, locs, _ = origins(b, operand, follow_all_calls=True)
+    if any(o.kind == "call" and FILE_READ.search(o.what) for o in src):
+        return True
+    # buffers filled by SharedMmap::read(&mut buf) are not data-flow results: look for a read call that takes a &mut of a local in the slice
+    for r in b.calls(re.compile(r"SharedMmap::read$")):
+        tl = borrowed_local(b, r.node["args"][2])
+        if tl in locs:
+            return True
+    if b.kind == "Closure" and b.parent in facts.bodies:
+        fam = [facts.bodies[b.parent]] + facts.closures_of(facts.bodies[b.parent])
+        if any(x.calls(re.compile(r"^std::fs::read$")) for x in fam):
+            return True
+    # parameters that are disk buffers (batch parser reads from `buffers` filled by io_uring / mmap reads)
+    if any(o.kind == "call" and re.search(r"collect$|from_elem$", o.what) for o in src):
+        return True
+    if depth < 2:
+        argl = [l for l in locs if 1 <= l <= b.arg_count]
+        if argl:
+            me = strip_generics(b.name)
+            for name, cb in facts.bodies.items():
+                if cb.j["derived"]:
+                    continue
+                for c in cb.calls():
+                    if strip_generics(c.node.get("callee") or "") != me:
+                        continue
+                    for l in argl:
+                        if l - 1 < len(c.node["args"]) and _from_file(facts, cb, c.node["args"][l - 1], depth + 1):
+                            return True
+    return False
 
 
 def check_unchecked_roots(ctx, facts):
@@ -209,22 +261,7 @@ def check_unchecked_roots(ctx, facts):
         for s in b.calls(re.compile(r"^rkyv::(util::)?archived_root$|^rkyv::archived_root_mut$|^rkyv::(util::)?archived_value$")):
             ctx.saw_body(b)
             n += 1
-            src, _, _ = origins(b, s.node["args"][0], follow_all_calls=True)
-            from_file = any(o.kind == "call" and FILE_READ.search(o.what) for o in src)
-            # buffers filled by SharedMmap::read(&mut buf) are not data-flow results: look for a read call that takes a &mut of a local in the slice
-            if not from_file:
-                _, locs, _ = origins(b, s.node["args"][0], follow_all_calls=True)
-                for r in b.calls(re.compile(r"SharedMmap::read$")):
-                    tl = borrowed_local(b, r.node["args"][2])
-                    if tl in locs:
-                        from_file = True
-                if b.kind == "Closure" and b.parent in facts.bodies:
-                    fam = [facts.bodies[b.parent]] + facts.closures_of(facts.bodies[b.parent])
-                    if any(x.calls(re.compile(r"^std::fs::read$")) for x in fam):
-                        from_file = True
-                # parameters that are disk buffers (batch parser reads from `buffers` filled by io_uring / mmap reads)
-                if any(o.kind == "call" and re.search(r"collect$|from_elem$", o.what) for o in src):
-                    from_file = True
+            from_file = _from_file(facts, b, s.node["args"][0])
             T = (s.node.get("callee_generic") or "").split("archived_root::<")[-1].rstrip(">")
             if from_file:
                 ctx.violate("C11.1", F, "unchecked-archived_root<%s>" % T.split("::")[-1][:40], b.relfile, s.line,
